@@ -150,9 +150,9 @@ def run_one(name, apply):
                     if l.startswith("VIOLATION"):
                         continue
                     k = l.replace("property=" + p, "")[:160]
-                    if k not in seen and len(seen) < 6:
+                    if k not in seen and len(seen) < 3:
                         seen.add(k)
-                        print("     ", p, rc, l[:300])
+                        print("     ", p, rc, l[:220])
     finally:
         shutil.rmtree(d, ignore_errors=True)
 
